@@ -67,6 +67,9 @@ namespace mustache {
         template<typename _F>
         void parallelFor(_F&& function, size_t begin, size_t end, uint32_t task_count = 0u) {
             const size_t size = end - begin;
+            if (size == 0u) {
+                return; // nothing to do; the split below would divide by the task count 0
+            }
             if (task_count < 1u) {
                 task_count = size < threadCount() ? static_cast<uint32_t>(size) : threadCount();
             }
